@@ -144,55 +144,188 @@ theorem sendSettings_cinv {c : Conn} (h : CInv c) (vals : List (Nat × Nat)) (hv
   · exact ⟨h.1, hv⟩
   · exact h
 
-theorem settingsPollSend_cinv {c : Conn} (h : CInv c) : CInv c.settingsPollSend.1 := by
-  unfold Conn.settingsPollSend
+/-- first half of `Settings::poll_send`: ACK the peer's SETTINGS and apply them -/
+def settingsAck (c : Conn) : Conn × Step :=
+  match c.settings.remote with
+  | some settings =>
+    match c.codecPollReady with
+    | (c, .pending) => (c, .pending)
+    | (c, .err e) => (c, .err e)
+    | (c, .ok) =>
+      let c := c.bufferSettings true []
+      let isInitial := !c.settings.hasReceivedRemoteInitialSettings
+      let c := { c with settings := { c.settings with hasReceivedRemoteInitialSettings := true } }
+      match c.streams.applyRemoteSettings settings isInitial with
+      | (s, .error e) => ({ c with streams := s }, .err e)
+      | (s, .ok _) =>
+        let c := { c with streams := s }
+        let get := fun (id : Nat) => (settings.find? (·.1 = id)).map (·.2)
+        let w := c.codec.w
+        let w := match get 1 with | some v => { w with hpack := w.hpack.updateMaxSize v } | none => w
+        let w := match get 5 with | some v => { w with maxFrameSize := v } | none => w
+        ({ c with codec := { c.codec with w := w } }, .ok)
+  | none => (c, .ok)
+
+/-- second half: send our own SETTINGS -/
+def settingsSendOwn (c : Conn) : Conn × Step :=
+  let c := { c with settings := { c.settings with remote := none } }
+  match c.settings.loc with
+  | .toSend settings =>
+    match c.codecPollReady with
+    | (c, .ok) =>
+      let c := c.bufferSettings false settings
+      ({ c with settings := { c.settings with loc := .waitingAck settings } }, .ok)
+    | r => r
+  | _ => (c, .ok)
+
+theorem settingsPollSend_eq (c : Conn) : c.settingsPollSend =
+    (match settingsAck c with
+     | (c, .ok) => settingsSendOwn c
+     | r => r) := by
+  unfold Conn.settingsPollSend settingsAck settingsSendOwn
+  rfl
+
+theorem settingsAck_cinv {c : Conn} (h : CInv c) : CInv (settingsAck c).1 := by
+  unfold settingsAck
+  split
+  · next settings _ =>
+    split
+    · rename_i c1 heq; exact cinv_of_fst heq h
+    · rename_i c1 e heq; exact cinv_of_fst heq h
+    · rename_i c1 heq
+      have h1 : CInv c1 := cinv_of_fst heq h
+      dsimp only
+      have h2 : CI (c1.streams.applyRemoteSettings settings (!c1.settings.hasReceivedRemoteInitialSettings)).1
+          c1.settings.loc := h1.op (.applyRemoteSettings _ _) trivial
+      split
+      · rename_i heq2; exact CI.fst heq2 h2
+      · rename_i heq2; exact CI.fst heq2 h2
+  · exact h
+
+theorem settingsSendOwn_cinv {c : Conn} (h : CInv c) : CInv (settingsSendOwn c).1 := by
+  unfold settingsSendOwn
   dsimp only
-  -- whatever the first half (ACK of the peer's SETTINGS) returns satisfies the invariant
-  have hfirst : ∀ (p : Conn × Step),
-      (match c.settings.remote with
-        | some settings =>
-          match c.codecPollReady with
-          | (c, .pending) => (c, Step.pending)
-          | (c, .err e) => (c, .err e)
-          | (c, .ok) =>
-            match (c.bufferSettings true []).streams.applyRemoteSettings settings
-                (!(c.bufferSettings true []).settings.hasReceivedRemoteInitialSettings) with
-            | (s, .error e) => (_, .err e)
-            | (s, .ok _) => (_, .ok)
-        | none => (c, .ok)) = p → CInv p.1 := by
-    intro p hp
-    split at hp
-    · next settings _ =>
-      split at hp
-      · rename_i c1 heq; subst hp; exact cinv_of_fst heq h
-      · rename_i c1 e heq; subst hp; exact cinv_of_fst heq h
-      · rename_i c1 heq
-        have h1 : CInv c1 := cinv_of_fst heq h
-        have h2 : CI ((c1.bufferSettings true []).streams.applyRemoteSettings settings
-            (!(c1.bufferSettings true []).settings.hasReceivedRemoteInitialSettings)).1 c1.settings.loc :=
-          CI.op (s := c1.streams) h1 (.applyRemoteSettings _ _) trivial
-        split at hp
-        · rename_i heq2; subst hp; exact CI.fst heq2 h2
-        · rename_i heq2; subst hp; exact CI.fst heq2 h2
-    · subst hp; exact h
+  split
+  · next settings hloc =>
+    have hv : valsValid settings := by
+      have := h.2
+      have hloc' : c.settings.loc = .toSend settings := hloc
+      rw [hloc'] at this; exact this
+    split
+    · rename_i c2 heq2
+      have h2 : CInv c2 := cinv_of_fst heq2 (show CInv _ from h)
+      exact ⟨h2.1, hv⟩
+    · exact (show CInv _ from h)
+  · exact h
+
+theorem settingsPollSend_cinv {c : Conn} (h : CInv c) : CInv c.settingsPollSend.1 := by
+  rw [settingsPollSend_eq]
+  have h1 := settingsAck_cinv h
   split
   · rename_i c1 heq
-    have h1 : CInv c1 := hfirst _ heq
-    dsimp only
+    rw [heq] at h1
+    exact settingsSendOwn_cinv h1
+  · exact h1
+
+theorem pollReady_cinv {c : Conn} (h : CInv c) : CInv c.pollReady.1 := by
+  unfold Conn.pollReady
+  have h1 := sendPendingPong_cinv h
+  split
+  · rename_i c1 heq1
+    rw [heq1] at h1
+    have h2 := sendPendingPing_cinv h1
     split
-    · next settings hloc =>
-      have hv : valsValid settings := by
-        have := h1.2
-        have hloc' : c1.settings.loc = .toSend settings := hloc
-        rw [hloc'] at this; exact this
+    · rename_i c2 heq2
+      rw [heq2] at h2
+      have h3 := settingsPollSend_cinv h2
       split
-      · rename_i c2 heq2
-        have h2 : CInv c2 := cinv_of_fst heq2 (show CInv _ from h1)
-        exact ⟨h2.1, hv⟩
-      · rename_i r hne
-        exact (show CInv _ from h1)
+      · rename_i c3 heq3
+        rw [heq3] at h3
+        dsimp only
+        exact CI.op (s := c3.streams) h3 (.pollSendPendingRefusal 4 c3.codec.w c3.codec.io c3.cx) trivial
+      · exact h3
+    · exact h2
+  · exact h1
+
+theorem setTargetWindowSize_cinv {c : Conn} (h : CInv c) (size : Nat) (hs : size ≤ 2147483647) :
+    CInv (c.setTargetWindowSize size) := by
+  unfold Conn.setTargetWindowSize
+  exact h.op (.setTargetConnectionWindow size) hs
+
+theorem setInitialWindowSize_cinv {c : Conn} (h : CInv c) (size : Nat) (hs : size ≤ 2147483647) :
+    CInv (c.setInitialWindowSize size).1 := by
+  unfold Conn.setInitialWindowSize
+  refine sendSettings_cinv h _ ?_
+  intro t ht
+  have : settingsIws [(4, size)] = some size := by simp [settingsIws]
+  rw [this] at ht; cases ht; exact hs
+
+theorem takeError_cinv {c : Conn} (h : CInv c) (o : Reason) (i : Initiator) : CInv (c.takeError o i).1 := by
+  unfold Conn.takeError
+  dsimp only
+  split
+  · exact h
+  · split <;> exact h
+
+theorem handleGoAway_cinv {c : Conn} (h : CInv c) (r : Reason) (d : Bytes) (i : Initiator) :
+    CInv (c.handleGoAway r d i) := by
+  unfold Conn.handleGoAway
+  split
+  · exact h
+  · dsimp only
+    apply goAwayNowData_cinv
+    exact h.op (.handleError _) trivial
+
+theorem handlePoll2Result_cinv {c : Conn} (h : CInv c) (res : Except PErr Unit) : CInv (c.handlePoll2Result res).1 := by
+  unfold Conn.handlePoll2Result
+  split
+  · exact h
+  · exact handleGoAway_cinv h _ _ _
+  · split
+    · exact h
+    · rename_i id reason init _
+      have h1 : CI (c.streams.innerSendReset id reason).1 c.settings.loc := h.op (.innerSendReset id reason) trivial
+      split
+      · rename_i heq; exact CI.fst heq h1
+      · rename_i s g heq
+        apply handleGoAway_cinv
+        exact CI.fst heq h1
+  · dsimp only
+    have h1 : CI (c.streams.handleError _).1 c.settings.loc := h.op (.handleError _) trivial
+    split
     · exact h1
-  · rename_i r hne heq
-    exact hfirst _ heq
+    · exact h1
+
+/-- **`DynConnection::recv_frame`**: every frame the peer can send -/
+theorem recvFrame_cinv {c : Conn} (h : CInv c) (f : Option Frame.Frame) : CInv (c.recvFrame f).1 := by
+  unfold Conn.recvFrame
+  dsimp only
+  split
+  · have := h.op (.recvHeaders _) trivial
+    split <;> (rename_i heq; exact CI.fst heq this)
+  · have := h.op (.recvData _ _ _ _) trivial
+    split <;> (rename_i heq; exact CI.fst heq this)
+  · have := h.op (.recvReset _ _) trivial
+    split <;> (rename_i heq; exact CI.fst heq this)
+  · have := h.op (.recvPushPromise _ _) trivial
+    split <;> (rename_i heq; exact CI.fst heq this)
+  · exact h
+  · rename_i last code debug
+    have := h.op (.recvGoAwayFrame last code debug) trivial
+    split <;> (rename_i heq; exact CI.fst heq this)
+  · -- PING
+    rename_i ack payload
+    have h1 : CI (c.streams.wake (c.pingPong.recvPing ack payload).2.2.1) c.settings.loc := h.op (.wake _) trivial
+    split
+    · split
+      · apply dynGoAway_cinv; exact h1
+      · apply dynGoAway_cinv; exact h1.op (.panic _) trivial
+    · split
+      · exact h1
+      · exact h1.op (.panic _) trivial
+  · have := h.op (.recvWindowUpdate _ _) trivial
+    split <;> (rename_i heq; exact CI.fst heq this)
+  · exact h
+  · exact h.op (.recvEof false) trivial
 
 end H2V.Lemmas.ConnRecvP
